@@ -20,6 +20,8 @@ std::string *newstr(int v) { return new std::string(v % 2 ? "a-string-longer-tha
 double *newdbls(int n) { double *p = (double *)std::malloc(sizeof(double) * (n > 0 ? n : 1)); for (int i = 0; i < n; ++i) p[i] = 0.5 * i; return p; }
 void wrong_destructor(const char *which) { std::printf("wrong destructor: ~%s ran on an object of another class\n", which); std::fflush(stdout); std::_Exit(7); }
 beta::Item *beta::makeItem() { return new beta::Item(); }
+Stamp *makeStamp(int v) { return new Stamp(v); }
+Stamp currentStamp() { return Stamp(42); }
 char *dupname(int v) { static const int lens[5] = {0, 1, 15, 16, 40}; int n = lens[(v < 0 ? -v : v) % 5]; char *p = (char *)std::malloc((size_t)n + 1); std::memset(p, 'd', n); p[n] = 0; return p; }
 // a pool of objects owned by the library; acquire hands one out, release_obj takes it back
 static Obj *slots[64];
